@@ -41,6 +41,9 @@ def check(rep, tier, seed):
                 ops += ["ps:-1", "ps:%d" % (total + 1), "pp:%d" % (total + 1), "rs:-1", "rs:%d" % (len(fi["data"]) + 1), "rf:2"]
                 # the lapped variants must reject the same arguments, equally without disturbing the position: the reads that
                 # follow are compared with the audio at the reported position
+                # times just below zero (they would truncate to sample 0) and at/after the end are out of range too
+                ops += ["ps:%d" % (total // 2), "rf:5", "ts:-1e-06", "rf:3", "tp:-1e-09", "rf:3", "ts:-1e-300", "rf:3", "ts:-0.5", "tp:1e9", "ts:1e9", "rf:3",
+                        "tl:-1e-07", "rf:3"]
                 ops += ["ps:%d" % (total // 3), "rf:37", "pl:-1", "rf:10", "ql:%d" % (1 << 40), "rf:10", "rl:-1", "rf:10",
                         "rl:%d" % (len(fi["data"]) + 1), "rf:10", "pl:%d" % (1 << 40), "rf:300", "rf:10"]
                 # time seeks: inside links (exact duration arithmetic is the harness's oracle)
